@@ -704,9 +704,19 @@ impl<T: Elem + SatisfyTraits<Tr>, M: MX, Tr: TrX + ?Sized> Runner for Cfg<T, M, 
         let need = if call == 3 { Some(arg) } else { len.checked_add(arg) };
         let s = snap::<T, Tr, M>(&w.a);
         let intact = snap_matches::<T>(&s, &w.ma);
+        let cap_after = w.a.capacity();
+        // the vector must still be droppable and the allocator must see consistent layouts (C18)
+        let dropped = guarded(move || drop(w)).is_ok();
+        galloc::flush();
+        let (aerrs, live) = galloc::with_as(|st| {
+            let mut v = Vec::new();
+            for i in 0..st.nerrs { v.push(format!("{:?}", st.errs[i].unwrap()).replace(' ', "")); }
+            (v, st.live_blocks())
+        });
+        let tail = format!("need={} intact={intact} cap_before={len} cap_after={cap_after} dropped={dropped} live_blocks={live} alloc_errs={}", need.map(|n| n.to_string()).unwrap_or("overflow".into()), if aerrs.is_empty() { "-".to_string() } else { aerrs.join(",") });
         match r {
-            Ok(c) => format!("RETURNED cap={c} need={} intact={intact}", need.map(|n| n.to_string()).unwrap_or("overflow".into())),
-            Err(_) => format!("PANICKED need={} intact={intact}", need.map(|n| n.to_string()).unwrap_or("overflow".into())),
+            Ok(c) => format!("RETURNED cap={c} {tail}"),
+            Err(_) => format!("PANICKED {tail}"),
         }
     }
 
